@@ -71,6 +71,8 @@ fn alphabet() -> Vec<Req> {
         (r#""method":"org.varlink.service.GetInterfaceDescription","parameters":{"interface":"nope"}"#, Exp::ErrorWith("org.varlink.service.InvalidParameter", "parameter", "interface")),
         (r#""method":"org.varlink.service.GetInterfaceDescription""#, Exp::ErrorWith("org.varlink.service.InvalidParameter", "parameter", "parameters")),
         (r#""method":"org.varlink.service.Nope""#, Exp::ErrorWith("org.varlink.service.MethodNotFound", "method", "org.varlink.service.Nope")),
+        (r#""method":"org.varlink.service.XGetInfo""#, Exp::ErrorWith("org.varlink.service.MethodNotFound", "method", "org.varlink.service.XGetInfo")),
+        (r#""method":"org.varlink.service.GetInterfaceDescriptionX","parameters":{"interface":"org.example.t"}"#, Exp::ErrorWith("org.varlink.service.MethodNotFound", "method", "org.varlink.service.GetInterfaceDescriptionX")),
         (r#""method":"org.example.t.Ok""#, Exp::Params),
         (r#""method":"org.example.t.Fail""#, Exp::Error("org.example.t.Failed")),
         (r#""method":"org.example.t.Nope""#, Exp::ErrorWith("org.varlink.service.MethodNotFound", "method", "org.example.t.Nope")),
@@ -85,6 +87,8 @@ fn alphabet() -> Vec<Req> {
         v.push(Req { text: t, oneway: true, more: false, expect: Exp::Nothing });
     }
     v.push(Req { text: r#""method":"org.example.t.Stream""#, oneway: false, more: true, expect: Exp::Stream3 });
+    v.push(Req { text: r#""method":"org.varlink.service.GetInfo","oneway":false"#, oneway: false, more: false, expect: Exp::Info });
+    v.push(Req { text: r#""method":"org.example.t.Stream","more":false"#, oneway: false, more: false, expect: Exp::Params });
     v.push(Req { text: r#""method":"org.example.t.Stream""#, oneway: true, more: true, expect: Exp::Nothing });
     v.push(Req { text: r#""method":"org.varlink.service.GetInfo""#, oneway: true, more: true, expect: Exp::Nothing });
     v.push(Req { text: r#""method":"org.varlink.service.GetInfo""#, oneway: false, more: true, expect: Exp::Info });
@@ -267,9 +271,10 @@ fn search_cuts(obs: &[&str]) {
 fn search_gate(ob: &str) {
     let mut found = None;
     let mut explored = 0;
-    for (oneway, more) in [(false, false), (true, false)] {
+    for (oneway, more, text) in [(false, false, r#""method":"org.example.t.BadCont""#), (true, false, r#""method":"org.example.t.BadCont""#),
+                                 (false, false, r#""method":"org.example.t.BadCont","more":false"#)] {
         explored += 1;
-        let r = Req { text: r#""method":"org.example.t.BadCont""#, oneway, more, expect: Exp::Nothing };
+        let r = Req { text, oneway, more, expect: Exp::Nothing };
         let input = render(&r);
         let (res, out, _) = run_handle(&input, usize::MAX / 2);
         if !(res.is_err() && out.is_empty()) && found.is_none() {
@@ -286,6 +291,8 @@ fn search_malformed(ob: &str) {
     let mut found = None;
     let mut explored = 0;
     let mut long_bads: Vec<Vec<u8>> = Vec::new();
+    long_bads.push(b"{\"method\":\"org.varlink.service.GetInfo\",\"parameters\":{\"x\":\"\xff\xfe\"}}\0".to_vec());
+    long_bads.push(b"{\"method\":\"org.varlink.service.Get\xc3Info\"}\0".to_vec());
     for pad in 200..300 {
         let mut m = vec![b'x'; pad];
         m.extend_from_slice("\u{e9}\u{20ac}\u{1F600}".as_bytes());
@@ -730,6 +737,19 @@ fn search_unlink(ob: &str) {
     emit(ob, found.is_some(), 1, found.unwrap_or(Value::Null));
 }
 
+// C03.info: every registered interface is listed exactly once, also when the same name is registered twice
+fn search_info_dups(ob: &str) {
+    let svc = VarlinkService::new("v", "p", "1", "u", vec![Box::new(Scripted), Box::new(Scripted)]);
+    let input = render(&alphabet()[0]);
+    let mut out = Vec::new();
+    let _ = svc.handle(&mut &input[..], &mut out, None);
+    let (replies, _) = split_replies(&out);
+    let ifs: Vec<String> = replies.get(0).and_then(|r| r.get("parameters")).and_then(|p| p.get("interfaces")).and_then(|i| i.as_array())
+        .map(|a| a.iter().filter_map(|x| x.as_str().map(|s| s.to_string())).collect()).unwrap_or_default();
+    let ok = ifs == vec!["org.varlink.service".to_string(), "org.example.t".to_string()];
+    emit(ob, !ok, 1, if ok { Value::Null } else { json!({"registered": ["org.example.t", "org.example.t"], "GetInfo.interfaces": ifs, "expected": ["org.varlink.service", "org.example.t"]}) });
+}
+
 // C17: Request / Reply round trips over the full flag domain {unset, true, false}
 fn search_wire_roundtrip(obs: &[&str]) {
     let mut found = None;
@@ -759,6 +779,26 @@ fn search_wire_roundtrip(obs: &[&str]) {
             found = Some(json!({"reply": format!("{:?}", r), "serialized": text, "from_str_equal": a.as_ref() == Some(&r), "from_value_equal": c.as_ref() == Some(&r)}));
         }
     }}
+    // ServiceInfo / GetInterfaceDescriptionReply, including the empty interface list
+    for ifs in [vec![], vec!["org.varlink.service"], vec!["org.varlink.service", "a.b"]] {
+        explored += 1;
+        let si = varlink::ServiceInfo { vendor: "v".into(), product: "p".into(), version: "1".into(), url: "u".into(), interfaces: ifs.iter().map(|s| (*s).into()).collect() };
+        let text = serde_json::to_string(&si).unwrap();
+        let a: Option<varlink::ServiceInfo> = serde_json::from_str(&text).ok();
+        let c: Option<varlink::ServiceInfo> = serde_json::to_value(&si).ok().and_then(|v| serde_json::from_value(v).ok());
+        if !(a.as_ref() == Some(&si) && c.as_ref() == Some(&si)) && found.is_none() {
+            found = Some(json!({"service_info_interfaces": ifs, "serialized": text, "from_str_equal": a.as_ref() == Some(&si), "from_value_equal": c.as_ref() == Some(&si)}));
+        }
+    }
+    for d in [None, Some("text".to_string())] {
+        explored += 1;
+        let r = varlink::GetInterfaceDescriptionReply { description: d.clone() };
+        let text = serde_json::to_string(&r).unwrap();
+        let a: Option<varlink::GetInterfaceDescriptionReply> = serde_json::from_str(&text).ok();
+        if (a.as_ref() != Some(&r) || text.contains("description") != d.is_some()) && found.is_none() {
+            found = Some(json!({"reply": format!("{:?}", r), "serialized": text}));
+        }
+    }
     for ob in obs { emit(ob, found.is_some(), explored, found.clone().unwrap_or(Value::Null)); }
 }
 
@@ -791,6 +831,7 @@ fn main() {
     let lt: Vec<&str> = ["C15.idle", "C15.drain", "C15.drain-w", "C15.busy", "C15.stop", "C15.no-panic"].iter().cloned().filter(|o| m(o)).collect();
     if !lt.is_empty() { search_listen_time(&lt); }
     if m("C15.unlink") { search_unlink("C15.unlink"); }
+    if m("C03.info") { search_info_dups("C03.info"); }
     let wr: Vec<&str> = ["C17.wire-attrs"].iter().cloned().filter(|o| m(o)).collect();
     if !wr.is_empty() { search_wire_roundtrip(&wr); }
 }
